@@ -44,13 +44,15 @@ def compile_cases(cases, cfg, d, extra_prelude=''):
             k = bisect.bisect_right(starts, line) - 1
             return pos[starts[k]] if k >= 0 else None
         blamed = {}
-        cur_err = None
+        cur_err = None; attributed = False
         for l in err.split('\n'):
+            if re.search(r': (fatal error|error): ', l): cur_err = l; attributed = False
             m = re.match(r'.*tu\.cpp:(\d+):\d+: (fatal error|error|note)', l)
-            if not m: continue
-            if m.group(2) != 'note': cur_err = l
+            if not m or cur_err is None or attributed: continue
             cid = case_of(int(m.group(1)))
-            if cid and cur_err and cid not in blamed: blamed[cid] = cur_err
+            if cid:
+                attributed = True
+                if cid not in blamed: blamed[cid] = cur_err
         if not blamed:
             raise RuntimeError('TU does not compile and no wrapper could be blamed: ' + _err_summary(err))
         byid = {c.id: c for c in cur}
